@@ -74,6 +74,18 @@ fn c14_overlaying_iterator_3x3() {
 
 #[kani::proof]
 #[kani::unwind(8)]
+fn c14_overlaying_iterator_2x2() {
+    overlay_iterator_matches_reference::<2, 2>();
+}
+
+#[kani::proof]
+#[kani::unwind(8)]
+fn c14_overlaying_iterator_3x2() {
+    overlay_iterator_matches_reference::<3, 2>();
+}
+
+#[kani::proof]
+#[kani::unwind(8)]
 fn c14_overlaying_iterator_2x4() {
     overlay_iterator_matches_reference::<2, 4>();
 }
@@ -132,6 +144,12 @@ fn overlay_result_iterator<const NU: usize, const NO: usize>() {
     kani::cover!(has_err && done, "error cuts overlay entries reachable");
     kani::cover!(has_err && !done, "error after full listing reachable");
     kani::cover!(!has_err && nu == NU && no == NO, "no error full sizes reachable");
+}
+
+#[kani::proof]
+#[kani::unwind(8)]
+fn c12_overlaying_result_iterator_2x2() {
+    overlay_result_iterator::<2, 2>();
 }
 
 #[kani::proof]
